@@ -44,7 +44,19 @@ def run_d2r(case):
     spec = case["dfa"]
     D = B.mk_dfa(spec)
     before = B.canon(spec)
-    r = lib(dfa_to_regexp, D)
+    if case.get("logging"):
+        import contextlib
+        import io
+        from gambatools.global_settings import GambaTools
+        old = GambaTools.enable_logging
+        GambaTools.enable_logging = True
+        try:
+            with contextlib.redirect_stdout(io.StringIO()):
+                r = lib(dfa_to_regexp, D)
+        finally:
+            GambaTools.enable_logging = old
+    else:
+        r = lib(dfa_to_regexp, D)
     if not isinstance(r, Regexp):
         raise Fail("type", "dfa_to_regexp returned %r" % type(r))
     t = BR.snap(r)
@@ -58,7 +70,7 @@ def run_d2r(case):
     if B.snap_dfa(D) != before:
         raise Fail("mutates_argument", "dfa_to_regexp changed its argument")
     c = fa.canonical_min(A)
-    cls = ["states_%d" % len(spec["Q"])]
+    cls = ["states_%d" % len(spec["Q"])] + (["logging_on"] if case.get("logging") else [])
     if set(spec["Q"]) & {"start", "accept"}:
         cls.append("state_named_start_or_accept")
     return {"nt": len(fa.reachable(A)) >= 2 and len(c[1]) >= 2, "cls": cls, "out": {"regexp_nodes": RX.size(t)}}
@@ -75,6 +87,14 @@ GNFA_NAMES = ["start", "accept", "start0", "accept0", "start1", "accept1", "q0",
 
 @st.composite
 def d2r_cases(draw, tier):
+    case = draw(d2r_cases0(tier))
+    if draw(st.integers(0, 7)) == 0:
+        case["logging"] = True         # GambaTools.enable_logging on (output swallowed): the result must be the same kind of answer
+    return case
+
+
+@st.composite
+def d2r_cases0(draw, tier):
     if draw(st.integers(0, 7)) == 0:
         # state names that coincide with the names dfa_to_gnfa gives to the two states it adds
         return {"dfa": draw(G.dfa_specs(min_states=2, max_states=5, max_sigma=2, pool=GNFA_NAMES)), "gnfa_names": True}
@@ -110,9 +130,18 @@ from props import workbench as WB   # noqa: E402
 
 def run_r2n_sequence(case):
     """Several expressions are converted first; only then every NFA is validated (results handed out earlier must not be affected by later calls)."""
-    nfas = [(t, lib(regexp_to_nfa, BR.mk(t))) for t in case["res"]]
-    for t, N in nfas:
+    nfas = []
+    first = []
+    for t in case["res"]:
+        N = lib(regexp_to_nfa, BR.mk(t))
+        nfas.append((t, N))
+        first.append(B.snap_nfa(N))
+    for (t, N), snap0 in zip(nfas, first):
         snap = B.snap_nfa(N)
+        if snap != snap0:
+            diff = [k for k in snap0 if snap.get(k) != snap0[k]]
+            raise Fail("sequence_result_changed", "the NFA returned for %s was changed by later conversions (fields %s: %r -> %r)" %
+                       (RX.render_full(t), diff, {k: snap0[k] for k in diff}, {k: snap[k] for k in diff}))
         err = fa.valid_nfa_snapshot(snap)
         if err:
             raise Fail("sequence_invalid_nfa", "the NFA of %s is invalid after later conversions: %s" % (RX.render_full(t), err))
@@ -130,6 +159,10 @@ def r2n_sequence_cases(draw, tier):
     out = []
     for _ in range(draw(st.integers(2, 4))):
         syms = draw(st.sampled_from([["a"], ["a", "b"], ["b", "c"], ["c"]]))
+        if draw(st.integers(0, 2)) == 0:
+            # single-character symbols that (almost certainly) no earlier conversion in this process has seen
+            k = draw(st.integers(0, 20000))
+            syms = [chr(0x4E00 + k), chr(0x4E00 + (k + 1) % 20001)]
         out.append(draw(GR.trees(syms, max_leaves=draw(st.sampled_from([1, 1, 2, 5])))))
     return {"res": out}
 
